@@ -239,7 +239,7 @@ PROPS = {
         'theorems': ['UtreexoVerif.Props.C12.' + t for t in ['C12_of_discipline', 'discipline_sound', 'discipline_wf', 'raceFree', 'atomic',
                      'reader_sees_whole_block', 'reader_view_stable', 'writer_excludes', 'others_blocked_while_writer_inside', 'deadlockFree', 'immutable_const',
                      'Examples.unlocked_getter_races', 'Examples.reentrancy_deadlocks', 'Examples.split_block_is_visible']] +
-                    ['UtreexoVerif.Props.C12Table.' + t for t in ['C12', 'translation_ok', 'allMethods_complete', 'lockTable_ok',
+                    ['UtreexoVerif.Props.C12Table.' + t for t in ['C12', 'translation_ok', 'allMethods_complete', 'lockTable_ok', 'queries_single_section',
                      'full_immutable', 'hooks_in_write_sections', 'Examples.getNumLeaves_api', 'Examples.modifyOnce_api']] +
                     ['UtreexoVerif.Proofs.Lock.' + t for t in ['mutual_exclusion', 'threadsOK_step', 'lockInv_step', 'atomic_step',
                      'frozen_step', 'inv_reachable', 'gen_wf', 'apiProg_wf']],
